@@ -882,6 +882,16 @@ func (e *Env) call(x *ECall) Val {
 	case "box":
 		v := arg(0)
 		return Val{T: g.boxAny(v), S: "Int"}
+	case "iface":
+		// the interface value obtained by converting x (of its static Go type)
+		v := arg(0)
+		if v.G == nil {
+			e.fail("iface() of untyped value")
+		}
+		if v.S == "Iface" {
+			return v
+		}
+		return Val{T: g.mkIface(v.G, v), S: "Iface"}
 	case "ifaceval":
 		v := arg(0)
 		return Val{T: sx("i-val", v.T), S: "Int"}
